@@ -416,6 +416,15 @@ fn run_point_inner(p: &FaultPoint) -> Result<FaultInfo, String> {
                 let val = make_value(run.counter, *v);
                 run.write(d, vec![(key(*s), Some(val))]);
             }
+            Op::PutTail(s, r) => {
+                let k = key(*s);
+                let path = format!("db/wal/wal-{}.log", d.verif_state().db_wal_number);
+                let size = mem.read_file(&path).map_or(0, |f| f.len() as u64);
+                let len = tail_value_len(size, k.len(), *r).unwrap_or(40);
+                run.counter += 1;
+                let val = make_value(run.counter, Val { len, compressible: false });
+                run.write(d, vec![(k, Some(val))]);
+            }
             Op::Delete(s) => run.write(d, vec![(key(*s), None)]),
             Op::Batch(items) => {
                 let mut staged = vec![];
